@@ -115,6 +115,15 @@ def _ints(a):
     return [int(x) for x in a]
 
 
+def _safe_ints(f):
+    """list of ints, or the exception class if producing / iterating the result raises
+    (a view that raises on a valid tree is an observation for the oracle, not an adapter error)"""
+    try:
+        return [int(x) for x in f()]
+    except Exception as e:
+        return ["__exc__:" + type(e).__name__]
+
+
 def obs_tree(ts, t, inv, full=True, variadic=False):
     """Everything the public Tree API says about tree t (JSON-able, no floats except
     through the exact inverse lattice)."""
@@ -191,9 +200,9 @@ def obs_tree(ts, t, inv, full=True, variadic=False):
         o["root"] = "ValueError"
     trav = {}
     for order in ORDERS:
-        per = {"none": _ints(t.nodes(order=order))}
+        per = {"none": _safe_ints(lambda: t.nodes(order=order))}
         for u in range(N + 1):
-            per[str(u)] = _ints(t.nodes(u, order=order))
+            per[str(u)] = _safe_ints(lambda: t.nodes(u, order=order))
         trav[order] = per
     o["nodes"] = trav
     o["preorder_arr"] = {"none": _ints(t.preorder())}
@@ -205,11 +214,11 @@ def obs_tree(ts, t, inv, full=True, variadic=False):
         o["postorder_arr"][str(u)] = _ints(t.postorder(u))
         o["timeasc_arr"][str(u)] = _ints(t.timeasc(u))
         o["timedesc_arr"][str(u)] = _ints(t.timedesc(u))
-    o["leaves"] = {"none": _ints(t.leaves())}
-    o["samples"] = {"none": _ints(t.samples())}
+    o["leaves"] = {"none": _safe_ints(lambda: t.leaves())}
+    o["samples"] = {"none": _safe_ints(lambda: t.samples())}
     for u in range(N + 1):
-        o["leaves"][str(u)] = _ints(t.leaves(u))
-        o["samples"][str(u)] = _ints(t.samples(u))
+        o["leaves"][str(u)] = _safe_ints(lambda: t.leaves(u))
+        o["samples"][str(u)] = _safe_ints(lambda: t.samples(u))
     o["path_length"] = None
     if not variadic:
         return o
